@@ -177,7 +177,9 @@ Definition mkey_eqb (a b : mkey) : bool :=
 Record nsyn := { n_kind : kind; n_share : Z; n_in : option (option nat); n_by : option Z }.
 Record tsyn := { t_far : nat; t_needs : list nsyn }.
 Definition wr := (Z * Z * val)%type.          (* share, field, value *)
-Record fsyn := { f_enter : list wr; f_recur : list wr; f_exit : list wr; f_trans : list tsyn }.
+(* f_guard: optional entry guard  `let me if <share field> >= 1`  (a before-enter need, beact) *)
+Record fsyn := { f_guard : option (Z * Z);
+                 f_enter : list wr; f_recur : list wr; f_exit : list wr; f_trans : list tsyn }.
 Definition prog := list fsyn.
 
 (* NeedMarker._resolve: the frame the mark refers to, and the mark key *)
@@ -282,17 +284,35 @@ Definition with_now (s : kst) (t : nat) : kst :=
   {| k_now := t; k_shares := k_shares s; k_marks := k_marks s; k_active := k_active s |}.
 
 Definition frame_of (p : prog) (i : nat) : fsyn :=
-  nth i p {| f_enter := []; f_recur := []; f_exit := []; f_trans := [] |}.
+  nth i p {| f_guard := None; f_enter := []; f_recur := []; f_exit := []; f_trans := [] |}.
+
+(* Framer.checkEnter([far]) for a flat frame: every beact of the far frame holds.  The guard is the
+   comparison need  state >= 1  (python >= on the field's value; a raise counts as refused here --
+   the harness only ever stores numbers in guard fields) *)
+Definition guard_ok (s : kst) (f : fsyn) : bool :=
+  match f_guard f with
+  | None => true
+  | Some (sh, fld) =>
+      match fget fld (s_data (get_share sh (k_shares s))) with
+      | Some v => match py_ge v (VInt 1) with Ok c => py_truthy c | Err _ => false end
+      | None => false
+      end
+  end.
 
 (* events of entering frame F: entry markers first, then the enter acts *)
 Definition enter_evs (p : prog) (F : nat) : list kev :=
   map KEnterMark (entry_marks p F) ++ map KWrite (f_enter (frame_of p F)).
 
-(* Framer.segue for flat frames: the first transition whose needs all hold *)
-Fixpoint pick (s : kst) (fi : nat) (ts : list tsyn) : option tsyn :=
+(* Transiter.action: the needs all hold?  then checkEnter(far)?  only then the transition happens
+   (transit markers, exits, enters).  A transition whose needs hold but whose target is refused
+   returns None WITHOUT ANY EFFECT and Frame.precur goes on to the next preact.
+   Framer.segue for flat frames: the first transition that is not refused. *)
+Definition needs_true (s : kst) (fi : nat) (t : tsyn) : bool :=
+  forallb (fun n => need_eval s (resolve_need fi n)) (t_needs t).
+Fixpoint pick (p : prog) (s : kst) (fi : nat) (ts : list tsyn) : option tsyn :=
   match ts with
   | [] => None
-  | t :: r => if forallb (fun n => need_eval s (resolve_need fi n)) (t_needs t) then Some t else pick s fi r
+  | t :: r => if needs_true s fi t && guard_ok s (frame_of p (t_far t)) then Some t else pick p s fi r
   end.
 
 (* events of the framer in one tick (tick 0: enterAll + recur; later: segue + recur), and the
@@ -301,7 +321,7 @@ Definition framer_evs (p : prog) (s : kst) (first : bool) : list kev * nat :=
   let a := k_active s in
   if first then (enter_evs p a ++ map KWrite (f_recur (frame_of p a)), a)
   else
-    match pick s a (f_trans (frame_of p a)) with
+    match pick p s a (f_trans (frame_of p a)) with
     | None => (map KWrite (f_recur (frame_of p a)), a)
     | Some t =>
         (map (fun n => KTransitMark (resolve_need a n)) (t_needs t)
@@ -360,3 +380,7 @@ Fixpoint run_state (p : prog) (first : bool) (s : kst) (script : list (list wr *
       let '(s', _) := tick p first s pre post in
       run_state p false (with_now s' (S (k_now s'))) r
   end.
+
+(* the mark of a (share, key) view, and well-formed share stamps (never in the future) *)
+Definition marks_of (v : st) : option nat * option nat * option fields := (mstamp v, mused v, msnap v).
+Definition stamp_wf (v : st) : Prop := forall w, sstamp v = Some w -> w <= now v.
